@@ -307,6 +307,21 @@ func (in *Interp) query(asserts []*Term, vars []*Term) (Result, Model) {
 	}
 	var r Result = Unknown
 	var m Model
+	if fp && os.Getenv("GOSX_NOFPABS") == "" {
+		// over-approximate symbolic fp.mul / fp.div first: unsat of the abstraction is conclusive
+		if abs, lemmas, n := in.tb.abstractFP(asserts); n > 0 {
+			ta := time.Now()
+			ra, _, _ := in.sess.Check(append(append([]*Term{}, abs...), lemmas...), nil)
+			in.qs.ByBackend["fp-abstraction"] += time.Since(ta)
+			if ra == Unsat {
+				in.note("fp: decided by the mul/div abstraction with IEEE lemmas")
+				in.qs.Queries++
+				in.qs.UnsatN++
+				in.qs.Time += time.Since(t0)
+				return Unsat, nil
+			}
+		}
+	}
 	if hard && !fp && in.sess.kind != "cvc5int" {
 		if in.sessInt == nil {
 			in.sessInt, _ = NewSession("cvc5int", 5*time.Second, nil)
@@ -420,7 +435,7 @@ func (in *Interp) decide(c *Term) bool {
 	}
 	nc := in.tb.Not(c)
 	var ft, ff bool
-	if in.cfg.Lazy && c.HasFP {
+	if in.cfg.Lazy && (c.HasFP || in.pc.HasFP) {
 		// optimistic forking: both branches are explored without a solver call; the path condition
 		// is checked for satisfiability when the path ends abnormally or reaches a cover point,
 		// and every obligation query carries the full path condition (infeasible paths are unsat).
